@@ -44,7 +44,7 @@ def pad (c : Cfg) (ws : List (Slot α)) : List (Slot α) :=
 /-- `for i in 0..k { update_slot(i, item, ts) }` -/
 def updFirst : Nat → α → Option Int → List (Slot α) → List (Slot α)
   | 0, _, _, ws => ws
-  | _ + 1, _, _, [] => []        -- the Rust code would panic (index out of bounds); unreachable, see `k_le_len`
+  | _ + 1, _, _, [] => []        -- the Rust code would panic (`self.ws[idx]` out of bounds, count.rs:42); unreachable in reachable states for 1 ≤ S ≤ N: `countWindow_no_index_panic` (Props/C12.lean)
   | k + 1, x, t, s :: ws => s.update x t :: updFirst k x t ws
 
 /-- data element branch of `process` (count.rs:66-80). -/
@@ -52,11 +52,11 @@ def processItem (c : Cfg) (ws : List (Slot α)) (x : α) (t : Option Int) :
     List (Slot α) × Option (Result α) :=
   let ws1 := pad c ws
   match ws1 with
-  | [] => ([], none)             -- `ws.front().unwrap()` would panic; unreachable when size ≥ 1
+  | [] => ([], none)             -- `ws.front().unwrap()` (count.rs:69) would panic; unreachable for 1 ≤ S ≤ N (`countWindow_no_index_panic`)
   | s0 :: _ =>
     let k := s0.count / c.slide + 1
     match updFirst k x t ws1 with
-    | [] => ([], none)
+    | [] => ([], none)           -- `self.ws[0]` (count.rs:73) would panic; unreachable (`updFirst` keeps the length, `countWindow_no_index_panic`)
     | r :: rest => if r.count = c.size then (rest, some ⟨r.items, r.ts⟩) else (r :: rest, none)
 
 /-- `FlushAndRestart | Terminate` branch (count.rs:81-91). -/
